@@ -42,14 +42,26 @@ func (in Input) Bytes() []byte {
 			if end < 4096 {
 				return
 			}
-			at := end - 20 - r.Intn(30000)
-			if at < 2048 {
-				at = 2048
+			if r.Bool() {
+				// a short repeat of earlier bytes
+				at := end - 20 - r.Intn(30000)
+				if at < 2048 {
+					at = 2048
+				}
+				d := 1 + r.Intn(2000)
+				n := 8 + r.Intn(200)
+				for i := at; i < at+n && i < end; i++ {
+					b[i] = b[i-d]
+				}
+				return
 			}
-			d := 1 + r.Intn(2000)
-			n := 8 + r.Intn(200)
-			for i := at; i < at+n && i < end; i++ {
-				b[i] = b[i-d]
+			// a run of one byte value over most of the last 30000 bytes: a
+			// compressor that samples sparsely after a long stretch without
+			// matches still lands in it
+			lo := end - 30000 + r.Intn(2000)
+			hi := end - 64 - r.Intn(2000)
+			for i := lo; i < hi; i++ {
+				b[i] = 0x41
 			}
 		}
 		for e := 8 << 20; e <= len(b); e += 8 << 20 {
